@@ -231,7 +231,7 @@ def core_from_ir(circ):
     for k, v in circ.constants.items():
         if not isinstance(v, Constant):
             raise OracleError("constants[%r] is %r" % (k, v))
-        c.lets[k] = v.value
+        c.lets[k] = val(v.value) if not isinstance(v.value, Constant) else v.value
     for k, r in circ.registers.items():
         c.regs[k] = reg(r)
     for u in circ.usepulses:
